@@ -5,9 +5,11 @@ package main
 
 import (
 	"context"
+	"encoding/json"
 	"fmt"
 	"os"
 	"path/filepath"
+	"runtime"
 	"sort"
 	"strings"
 	"sync"
@@ -38,6 +40,35 @@ nodes:
       - pattern: |
           {"drop":"?d"}
         target: drop
+      - pattern: |
+          {"fan":"?f"}
+        target: fan
+      - pattern: |
+          {"bump":"?k"}
+        target: bump
+  fan:
+    action:
+      interpreter: ecmascript
+      source: |-
+        var bs = _.bindings;
+        _.out({to: _.props.mid, bump: 1});
+        _.out({to: _.props.mid, bump: 10});
+        delete bs["?f"];
+        return bs;
+    branching:
+      branches:
+      - target: start
+  bump:
+    action:
+      interpreter: ecmascript
+      source: |-
+        var bs = _.bindings;
+        bs.count = (typeof bs.count === 'number' ? bs.count : 0) + bs["?k"];
+        delete bs["?k"];
+        return bs;
+    branching:
+      branches:
+      - target: start
   drop:
     action:
       interpreter: ecmascript
@@ -80,6 +111,11 @@ type SOpV struct {
 	// and store must still agree, and a request that reports an error
 	// must not have changed the crew
 	Gone bool `json:"gone,omitempty"`
+	// Fan (process, one machine, sequential histories): the message makes
+	// the machine emit two messages to itself, {"bump":1} and {"bump":10};
+	// the service processes what its machines emit as requests of its
+	// own, and none of those may be lost or doubled: the count grows by 11
+	Fan bool `json:"fan,omitempty"`
 }
 
 type ServiceCase struct {
@@ -114,6 +150,11 @@ func genSOp(t *rapid.T, label string, faults bool, pool ...string) SOpV {
 	}
 	if faults && op.Kind != "read" {
 		op.Gone = rapid.IntRange(0, 5).Draw(t, label+".gone") == 0
+	}
+	if faults && op.Kind == "process" && !op.Gone && !op.Drop {
+		if op.Fan = rapid.IntRange(0, 3).Draw(t, label+".fan") == 0; op.Fan {
+			op.All = false
+		}
 	}
 	return op
 }
@@ -216,6 +257,20 @@ func storeView(ctx context.Context, s *Service, down bool) (map[string]string, e
 	return out, nil
 }
 
+// verifCountOf reads the count out of a view entry ("node {bindings}").
+func verifCountOf(view string) float64 {
+	i := strings.Index(view, "{")
+	if i < 0 {
+		return 0
+	}
+	var bs map[string]interface{}
+	if json.Unmarshal([]byte(view[i:]), &bs) != nil {
+		return 0
+	}
+	c, _ := bs["count"].(float64)
+	return c
+}
+
 func viewStr(v map[string]string) string {
 	keys := make([]string, 0, len(v))
 	for k := range v {
@@ -254,6 +309,9 @@ func doSOp(ctx context.Context, s *Service, op SOpV) (map[string]*core.Walked, e
 		if op.Drop {
 			msg = map[string]interface{}{"drop": 1.0}
 		}
+		if op.Fan {
+			msg = map[string]interface{}{"fan": 1.0}
+		}
 		if !op.All {
 			msg["to"] = op.Mid
 		}
@@ -283,6 +341,7 @@ func checkService(c ServiceCase) (v ev.Verdict) {
 		os.RemoveAll(dir)
 	}()
 	faultWindowOps := map[string]bool{}
+	goneSeen := false // a request whose context had ended came before: its write may land late
 	for i, op := range c.Ops {
 		before := memView(s)
 		switch op.Kind {
@@ -308,8 +367,37 @@ func checkService(c ServiceCase) (v ev.Verdict) {
 		if down {
 			faultWindowOps[op.Kind] = true
 		}
+		goroutines := runtime.NumGoroutine()
 		_, operr := doSOp(ctx, s, op)
+		if op.Fan {
+			// the two emitted messages are processed by goroutines of
+			// the service's own: wait for them to end
+			was, have := before[op.Mid]
+			want := verifCountOf(was) + 11
+			judged := have && !down && operr == nil && !goneSeen
+			for deadline := time.Now().Add(8 * time.Second); time.Now().Before(deadline); {
+				if judged && verifCountOf(memView(s)[op.Mid]) == want {
+					break
+				}
+				if !judged && runtime.NumGoroutine() <= goroutines {
+					break
+				}
+				time.Sleep(time.Millisecond)
+			}
+			// (a request that was doubled may still be under way)
+			for i := 0; i < 100 && runtime.NumGoroutine() > goroutines; i++ {
+				time.Sleep(time.Millisecond)
+			}
+			if judged {
+				if got := verifCountOf(memView(s)[op.Mid]); got != want {
+					v.Failf("op %d %s: machine %q emitted {bump:1} and {bump:10} to itself; its count was %v and must now be %v, but is %v (%s)", i, ev.JS(op), op.Mid, verifCountOf(was), want, got, memView(s)[op.Mid])
+					return
+				}
+				v.Class("emitted-requests")
+			}
+		}
 		if op.Gone {
+			goneSeen = true
 			// a write the service has given up waiting for may still be
 			// under way: give it a moment to land before looking
 			time.Sleep(3 * time.Millisecond)
